@@ -173,6 +173,9 @@ MULTI_KINDS = {
     "external": "def test_x():\n    assert outsource('data-%(i)d') == snapshot()\n",
     "both": "class Opq:\n    def __repr__(self):\n        return '<Opq>'\n\n    def __eq__(self, other):\n        return isinstance(other, Opq) or NotImplemented\n\n\ndef test_x():\n    assert {'k': Opq(), 'e': outsource(b'bin-%(i)d')} == snapshot()\n",
     "good": "def test_x():\n    assert 5 == snapshot(5)\n",
+    # one of the two names is imported already (as an earlier session leaves it), the other one is needed now
+    "hasrepr-external-imported": "from inline_snapshot import external\n\n\nclass Opq:\n    def __repr__(self):\n        return '<Opq>'\n\n    def __eq__(self, other):\n        return isinstance(other, Opq) or NotImplemented\n\n\ndef test_x():\n    assert [Opq(), outsource('data-%(i)d')] == snapshot()\n",
+    "external-hasrepr-imported": "from inline_snapshot import HasRepr\n\n\nclass Opq:\n    def __repr__(self):\n        return '<Opq>'\n\n    def __eq__(self, other):\n        return isinstance(other, Opq) or NotImplemented\n\n\ndef test_x():\n    assert {'e': outsource('data-%(i)d'), 'k': Opq()} == snapshot()\n",
 }
 
 
@@ -183,7 +186,7 @@ def _multi_cases(tier):
     out = []
     for n in ((2, 3) if tier == "quick" else (2, 3, 4)):
         for combo in itertools.product(kinds, repeat=n):
-            if not set(combo) & {"hasrepr", "external", "both"} or (n == 4 and tier != "thorough"):
+            if not set(combo) & (set(kinds) - {"plain", "good"}) or (n == 4 and tier != "thorough") or (n == 3 and tier == "quick" and len(set(combo)) < 2):
                 continue
             out.append({"multi": list(combo)})
     return out
